@@ -83,12 +83,14 @@ impl Cell_sinks {
     pub fn alloc(h: &mut Heap, v: VecS) -> (r: Cell_sinks) ensures final(h).sinks == v, final(h).alloc_sinks, final(h).source_talkback == old(h).source_talkback, final(h).alloc_source_talkback == old(h).alloc_source_talkback { h.sinks = v; h.alloc_sinks = true; Cell_sinks {} }
     /// ArcSwap::load yields a snapshot of the current list
     pub fn load(&self, h: &Heap) -> (r: VecS) ensures r == h.sinks { clone_val(&h.sinks) }
+    pub fn load_full(&self, h: &Heap) -> (r: VecS) ensures r == h.sinks { clone_val(&h.sinks) }
     pub fn store(&self, h: &mut Heap, v: VecS) ensures final(h).sinks == v, final(h).alloc_sinks == old(h).alloc_sinks, final(h).source_talkback == old(h).source_talkback, final(h).alloc_source_talkback == old(h).alloc_source_talkback { h.sinks = v; }
 }
 #[derive(Clone, Copy)] pub struct Cell_source_talkback {}
 impl Cell_source_talkback {
     pub fn alloc(h: &mut Heap, v: Option<Tb>) -> (r: Cell_source_talkback) ensures final(h).source_talkback == v, final(h).alloc_source_talkback, final(h).sinks == old(h).sinks, final(h).alloc_sinks == old(h).alloc_sinks { h.source_talkback = v; h.alloc_source_talkback = true; Cell_source_talkback {} }
     pub fn load(&self, h: &Heap) -> (r: Option<Tb>) ensures r == h.source_talkback { h.source_talkback }
+    pub fn load_full(&self, h: &Heap) -> (r: Option<Tb>) ensures r == h.source_talkback { h.source_talkback }
     pub fn store(&self, h: &mut Heap, v: Option<Tb>) ensures final(h).source_talkback == v, final(h).alloc_source_talkback == old(h).alloc_source_talkback, final(h).sinks == old(h).sinks, final(h).alloc_sinks == old(h).alloc_sinks { h.source_talkback = v; }
 }
 
